@@ -58,11 +58,18 @@ var ulpPool = []string{"4030", "4.03k", "4.030000000000001e3", "4.03000000000000
 	"0.30000000000000001", "0.1", "0.10000000000000002", "1", "1.0000000000000002", "1.0000000000000004", "0.9999999999999999",
 	"1e3", "1k", "1.0000000000000002k", "999.9999999999999", "2.2k", "2200", "2.2000000000000003e3", "1.1k", "1100", "1100.0000000000002"}
 
+// integer spellings beyond ±2^53 that collapse to one float64, next to non-integer spellings of the
+// same float: equal as numbers (parseNum yields the same float64), so they tie and fall back to byte order
+var bigIntPool = []string{"-9007199254740993", "-9007199254740992", "-9007199254740992.5", "9007199254740992", "+9007199254740993",
+	"9007199254740991.9", "9007199254740993", "9007199254740992.0", "9007199254740994", "-1700000000000000100", "-1700000000000000001",
+	"-1700000000000000001.5", "1700000000000000001", "1700000000000000000", "1.7e18", "9.007199254740992e15", "-9007199254740994",
+	"9223372036854775807", "9223372036854775808", "9223372036854775806.5", "1", "-1"}
+
 // pickValues chooses the values of a scenario from one themed pool (or a mix).
 func pickValues(r *hx.Rand) []string {
 	var src []string
 	pad := false
-	switch r.Intn(14) {
+	switch r.Intn(16) {
 	case 8, 9:
 		src = padPool
 		pad = true
@@ -71,6 +78,9 @@ func pickValues(r *hx.Rand) []string {
 		pad = true
 	case 12, 13:
 		src = ulpPool
+		pad = true
+	case 14, 15:
+		src = bigIntPool
 		pad = true
 	case 0, 1, 2:
 		src = pool
@@ -81,7 +91,7 @@ func pickValues(r *hx.Rand) []string {
 	case 6:
 		src = litPool
 	default:
-		src = append(append(append(append(append(append(append([]string(nil), pool...), prefixPool...), tiePool...), litPool...), padPool...), longPool...), ulpPool...)
+		src = append(append(append(append(append(append(append(append([]string(nil), pool...), prefixPool...), tiePool...), litPool...), padPool...), longPool...), ulpPool...), bigIntPool...)
 	}
 	preferNum = pad
 	nv := 2 + r.Intn(4)
